@@ -6,7 +6,7 @@ import json, os, re, subprocess, sys, concurrent.futures as cf
 
 VERIF = os.path.dirname(os.path.dirname(os.path.abspath(__file__)))
 FIXREV_PROP = {1: ["C06"], 2: ["C11"], 3: ["C11"], 4: ["C07"], 5: ["C03"], 6: ["C11"], 7: ["C05"], 8: ["C09"], 9: ["C09"], 10: ["C09"],
-               11: ["C09"], 12: ["C13", "C10"], 13: ["C13", "C10"], 14: ["C14"], 15: ["C15"], 16: ["C17"], 17: ["C20"], 18: ["C20", "C02"]}
+               11: ["C09"], 12: ["C13", "C10"], 13: ["C13", "C10"], 14: ["C14"], 15: ["C15"], 16: ["C17"], 17: ["C20"], 18: ["C20", "C02"], 19: ["C09"]}
 EXTRA = {"C08_2": ["C03"], "C04_1": ["C20"], "C04_2": ["C01"], "C06_2": ["C09"], "C01_2": ["C05"], "C16_2": ["C11"], "C11_1": ["C11"]}
 
 
@@ -16,6 +16,8 @@ def run(job):
     if not os.path.isdir(wt):
         subprocess.run(["git", "-C", "/repo", "worktree", "add", "-q", "--detach", wt, "HEAD"], check=False)
     subprocess.run(["git", "-C", wt, "checkout", "-q", "--", "."])
+    head = subprocess.run(["git", "-C", "/repo", "rev-parse", "HEAD"], capture_output=True, text=True).stdout.strip()
+    subprocess.run(["git", "-C", wt, "checkout", "-q", "--detach", head])
     patch = os.path.join(VERIF, "seeded", name, "patch.diff")
     ap = subprocess.run(["git", "-C", wt, "apply", patch], capture_output=True, text=True)
     if ap.returncode != 0:
